@@ -14,7 +14,7 @@ import (
 )
 
 func init() {
-	register(&Check{ID: "C20", Level: "model_checking", Run: runC20, QuickBudget: 200 * time.Second, ThoroughBudget: 45 * time.Minute})
+	register(&Check{ID: "C20", Level: "model_checking", Run: runC20, QuickBudget: 400 * time.Second, ThoroughBudget: 45 * time.Minute})
 	Replayers["c20"] = replayC20
 }
 
@@ -293,6 +293,7 @@ func runC20(r *h.Run) {
 				stream := l.write(u.sc.Keys, legacyVals(len(u.sc.Keys)))
 				for _, vp := range []bool{false, true} {
 					w.Evals++
+					w.Tick()
 					if v := evalC20Load(w, stream, l.inner && l.leaf, vp, uqs); v != nil {
 						v.Msg += fmt.Sprintf(" | layout %s keys=%v viaProto=%v", l.Name, hexKeys(u.sc.Keys), vp)
 						cj := c20Case{Layout: l.Name, ViaProto: vp}
@@ -328,6 +329,7 @@ func runC20(r *h.Run) {
 					continue
 				}
 				w.Evals++
+				w.Tick()
 				if v := evalC20Build(w, c, uqs, spread); v != nil {
 					v.Msg += " | " + c.Brief()
 					v.Kind, v.Case, v.Unit = "c20", c20Case{CaseJSON: c.JSON(), Spread: spread}, w.Unit()
@@ -344,6 +346,7 @@ func runC20(r *h.Run) {
 						// the loader must use the same encoder as the builder
 						for _, vp := range []bool{false, true} {
 							w.Evals++
+							w.Tick()
 							if !thorough && vp != (caseNo%2 == 0) {
 								continue
 							}
@@ -364,6 +367,7 @@ func runC20(r *h.Run) {
 			}
 			if c.Enc == "Bytes3" && c.ValIDs != nil {
 				w.Evals++
+				w.Tick()
 				if v := evalC20Arena(w, c.Keys, c.Opt); v != nil {
 					v.Msg += " | " + c.Brief()
 					cj := c20Case{CaseJSON: c.JSON(), Layout: "arena"}
